@@ -31,9 +31,21 @@ def main(argv=None):
         res = getattr(mod, "run_" + a.prop)(a.tier, a.seed)
         out = res.to_json()
         out["status"] = "ok"
-    except Exception as e:  # harness crash: never a violation
-        out = {"property": a.prop, "status": "error", "message": f"{type(e).__name__}: {e}",
-               "traceback": traceback.format_exc()}
+    except Exception as e:
+        tb = traceback.extract_tb(e.__traceback__)
+        inner = tb[-1].filename if tb else ""
+        if "/job_shop_lib/" in inner and "/harness/" not in inner:
+            # the library raised under valid use by the harness: that is a breach of the
+            # property being exercised (it cannot be said to hold), with the traceback as replay
+            out = {"property": a.prop, "status": "ok", "evaluations": 1, "distinct_nontrivial": 1,
+                   "breaches": [{"check": "library-raised-under-valid-use",
+                                 "what": f"{type(e).__name__}: {str(e)[:200]} at {inner}:{tb[-1].lineno}",
+                                 "replay": {"traceback": traceback.format_exc()[-3000:]}}],
+                   "samples": [], "bound": {}, "exhaustive": False, "notes": ["run aborted by a library exception"],
+                   "checks": {}, "wall_s": 0}
+        else:  # harness crash: never a violation
+            out = {"property": a.prop, "status": "error", "message": f"{type(e).__name__}: {e}",
+                   "traceback": traceback.format_exc()}
     txt = json.dumps(out, default=str)
     if a.out == "-":
         print(txt)
